@@ -14,5 +14,5 @@ ASSUMPTIONS = [
     "entries the documentation does not define (model.mask_guard) are reported but not asserted",
 ]
 _P = mp.HistoryProp(PROPERTY, "legal", mp.C04Mon, n_quick=14, n_thorough=150, max_len=40,
-                    styles=("legalish", "legal", "chaos", "survive", "solveish"), use_model_legality=True)
+                    styles=("legalish", "legal", "chaos", "survive", "solveish", "crowded"), use_model_legality=True)
 _P.export(globals())
